@@ -10,3 +10,5 @@ open Pcore.Json
 #print axioms C11_pb_value
 #print axioms C11_pb_stream
 #print axioms C11_pb_events
+#print axioms C11_pb_arms_ok
+#print axioms C11_impl_pb
